@@ -31,6 +31,10 @@ OPS = {
     'wdrA': (b'peer * withdraw route 10.0.0.0/24\n', ('del', (1, 1, '10.0.0.0', 24), None)),
     'annD6': (b'peer * announce route 2001:db8:9::/48 next-hop 2001:db8::9\n', ('set', (2, 1, '2001:db8:9::', 48), ('2001:db8::9', None))),
     'wdrB6': (b'peer * withdraw route 2001:db8::/48\n', ('del', (2, 1, '2001:db8::', 48), None)),
+    # "send everything again" (what a received ROUTE-REFRESH does too) changes nothing in what is intended ...
+    'flush': (b'rib flush out\n', ('none', None, None)),
+    # ... and "withdraw everything" empties it
+    'clear': (b'rib clear out\n', ('clear', None, None)),
 }
 PHASES = ('up1', 'down', 'down2', 'up2')
 
@@ -49,7 +53,9 @@ def intended(nfill, history, keep):
         kind, fam, val = OPS[op][1]
         if kind == 'set':
             t[key(fam)] = val
-        else:
+        elif kind == 'clear':
+            t.clear()
+        elif kind == 'del':
             t.pop(key(fam), None)
     return t, configured
 
